@@ -34,6 +34,7 @@ type c15Imp struct {
 type c15Fn struct {
 	Name   string `json:"name"`
 	Callee string `json:"callee,omitempty"` // function of the same module or of an imported one it calls
+	Shadow string `json:"shadow,omitempty"` // a local of this function named like a method/type of its own module (legal shadowing)
 }
 
 type c15Scenario struct {
@@ -139,10 +140,14 @@ func (md *c15Model) call(fn string, depth int) string {
 	for _, m := range md.mods {
 		for _, f := range m.Funcs {
 			if f.Name == fn {
-				if f.Callee == "" {
-					return fn
+				res := fn
+				if f.Shadow != "" {
+					res += "|影"
 				}
-				return fn + ">" + md.call(f.Callee, depth+1)
+				if f.Callee == "" {
+					return res
+				}
+				return res + ">" + md.call(f.Callee, depth+1)
 			}
 		}
 	}
@@ -173,10 +178,19 @@ func c15Source(m *c15Mod, isMain bool, mainStmts []string) string {
 	}
 	fmt.Fprintf(&sb, "（显示：“body %s”）\n\n", m.Name)
 	for _, f := range m.Funcs {
+		head, self := "", "“"+f.Name+"”"
+		if f.Shadow != "" {
+			// a local named like a sibling (or like the function itself) shadows that method inside this body only
+			head = fmt.Sprintf("\t令%s = “影”\n", f.Shadow)
+			self = fmt.Sprintf("以“%s|”（拼接：%s）", f.Name, f.Shadow)
+		}
+		if f.Shadow == "" && f.Callee != "" {
+			self = "“" + f.Name + "”"
+		}
 		if f.Callee == "" {
-			fmt.Fprintf(&sb, "如何%s？\n\t输出“%s”\n\n", f.Name, f.Name)
+			fmt.Fprintf(&sb, "如何%s？\n%s\t输出%s\n\n", f.Name, head, self)
 		} else {
-			fmt.Fprintf(&sb, "如何%s？\n\t输出以“%s>”（拼接：（%s））\n\n", f.Name, f.Name, f.Callee)
+			fmt.Fprintf(&sb, "如何%s？\n%s\t令己 = %s\n\t令头 = 以己（拼接：“>”）\n\t输出以头（拼接：（%s））\n\n", f.Name, head, self, f.Callee)
 		}
 	}
 	if m.HasType {
@@ -300,6 +314,21 @@ func runC15(t *zsim.Tape, cfg *hlib.Config) *hlib.Outcome {
 				}
 				_ = own
 				m.Funcs[j].Callee = c
+			}
+			if t.Draw(5) == 4 {
+				// shadow a name of the own module that this function does not call
+				var names []string
+				for _, f2 := range m.Funcs {
+					if f2.Name != m.Funcs[j].Callee {
+						names = append(names, f2.Name)
+					}
+				}
+				if m.HasType {
+					names = append(names, c15Tag(m.Name)+"型")
+				}
+				if len(names) > 0 {
+					m.Funcs[j].Shadow = names[t.Draw(len(names))]
+				}
 			}
 		}
 	}
